@@ -287,6 +287,9 @@ def _tuple_entries(list_node, file):
     return out
 
 
+exact_conds = []
+
+
 def _route(fn, file, direction):
     """register_(un)structure_hook: the if/elif/else routing after the decorator branch."""
     body = _strip_doc(fn.body)
@@ -311,10 +314,15 @@ def _route(fn, file, direction):
         cond = _src(node.test)
         if cond == f"is_union_type({var})":
             c = "CUnion"
-        elif cond == f"get_newtype_base({var}) is not None":
-            c = "CNewType"
         else:
-            raise T1Unrecognised(file, node.lineno, f"{fn.name}: unknown routing condition `{cond}`")
+            # any other test may select the exact-type route (`lambda t: t is x`): the harness evaluates the
+            # test itself on real types (it is an oracle of the model, w_is_newtype), T1 only checks the action
+            c = "CNewType"
+            act = _route_action(node.body, file, var, disp, fn.name)
+            if act != "AFuncExact":
+                raise T1Unrecognised(file, node.lineno, f"{fn.name}: unknown routing condition `{cond}`")
+            import re as _re
+            exact_conds.append(_re.sub(rf"\b{var}\b", "T", cond))
         routes.append((c, _route_action(node.body, file, var, disp, fn.name)))
         if len(node.orelse) == 1 and isinstance(node.orelse[0], ast.If):
             node = node.orelse[0]
@@ -359,7 +367,12 @@ def _copy_args(fn, file):
     for i, a in enumerate(call.args):
         passed.append(_classify_copy_arg(a, file, params))
     for kw in call.keywords:
-        passed.append(_classify_copy_arg(kw.value, file, params))
+        fb = {"unstructure_fallback_factory": "self._unstructure_func._fallback_factory",
+              "structure_fallback_factory": "self._structure_func._fallback_factory"}
+        if kw.arg in fb and _src(kw.value) == fb[kw.arg]:
+            passed.append(kw.arg)      # forwarded unchanged (not overridable through copy())
+        else:
+            passed.append(_classify_copy_arg(kw.value, file, params))
     tail = [_src(x) for x in body[1:]]
     return passed, tail
 
@@ -376,6 +389,7 @@ def _classify_copy_arg(a, file, params):
 def translate_converters(repo: Path):
     file = "src/cattrs/converters.py"
     mod = ast.parse((repo / file).read_text())
+    del exact_conds[:]
     base = _find_class(mod, "BaseConverter", file)
     conv = _find_class(mod, "Converter", file)
     out = {}
@@ -465,6 +479,9 @@ def translate_converters(repo: Path):
     # routing
     out["route_unstructure"] = _route(_find_method(base, "register_unstructure_hook", file), file, "unstructure")
     out["route_structure"] = _route(_find_method(base, "register_structure_hook", file), file, "structure")
+    if len(set(exact_conds)) != 1:
+        raise T1Unrecognised(file, 0, f"the two register_*_hook methods select the exact-type route differently: {exact_conds}")
+    out["exact_route_cond"] = exact_conds[0]
 
     # hook_func / hook_factory registrations
     for d, attr in (("unstructure", "_unstructure_func"), ("structure", "_structure_func")):
